@@ -334,6 +334,15 @@ class St:
                 f2 = facts.d.get((y, b))
                 if f2 is not None and (best is None or c + f2 < best):
                     best = c + f2
+                hy = self.itv[y][1]
+                if hy != INF and lb != -INF and (best is None or c + hy - lb < best):
+                    best = c + hy - lb          # a - y <= c  and  y - b <= hi(y) - lo(b)
+        if ha != INF:
+            for y, c in facts.inc(b):
+                if y != a:
+                    ly = self.itv[y][0]
+                    if ly != -INF and (best is None or ha - ly + c < best):
+                        best = ha - ly + c      # a - y <= hi(a) - lo(y)  and  y - b <= c
         return best
 
     def forget(self, vid):
@@ -440,6 +449,7 @@ class Ctx:
         self.observers = []    # callables (event, **kw)
         self.path_mode_fns = None   # optional predicate(inst) -> bool: try path mode
         self.no_inline = None       # optional predicate(inst) -> bool: never analyse body (havoc)
+        self.summary_fns = None     # predicate(inst) -> bool: memoise on pointer-to-sequence arguments too
         self.assume_fns = None      # predicate(inst)-> str|None: obligations inside are 'assumed' with that reason
         from . import models
         self.models = models.build(self)
